@@ -251,14 +251,17 @@ end loop
 theorem make_guard' [DecidableEq K] (parts : List (ExpPoly K × ExpPoly K))
     (h : ∃ x ∈ parts, x.2 ≠ []) : (makeModel false parts).guarded = true := by
   obtain ⟨x, hx, hne⟩ := h
-  simp only [makeModel, Bool.not_false, Bool.true_and, Bool.not_eq_true', List.isEmpty_eq_false_iff]
-  intro h0
-  have := List.flatMap_eq_nil_iff.mp h0 x hx
-  exact hne this
+  have hu : (parts.flatMap (fun x => x.2)).isEmpty = false := by
+    rw [List.isEmpty_eq_false_iff]
+    intro h0
+    exact hne (List.flatMap_eq_nil_iff.mp h0 x hx)
+  simp [makeModel, hu]
 
+/-- depends on the GENERATED flag `Gen.makeGuardOnlyIfNotCausal` (the `if not kwargs.get('causal', False)` around the
+    Piecewise in the source of `make`): without that condition in the source this fails -/
 theorem make_causal' [DecidableEq K] (parts : List (ExpPoly K × ExpPoly K)) :
     (makeModel true parts).guarded = false := by
-  simp [makeModel]
+  simp [makeModel, show Gen.makeGuardOnlyIfNotCausal = true from rfl]
 
 theorem termModel_causal [DecidableEq K] (hasDelay : Bool) (c u : ExpPoly K) :
     (termModel true hasDelay c u).2 = [] := by
